@@ -45,6 +45,7 @@ static std::string gHdrRe = ".*";
 static std::string gInstRe = "";
 static std::string gFnRe = "";
 static int gDepth = 9;
+static bool gNoMain = false;
 
 namespace {
 
@@ -730,6 +731,7 @@ static void dumpFunction(Ctx &C, const FunctionDecl *FD, const std::string &tmpl
   std::string file = fileOf(C, FD->getLocation());
   if (!inRoot(file)) return;
   if (file != C.mainFile && !C.HdrRe.match(file)) return;
+  if (file == C.mainFile && gNoMain) return;
   std::string name = fnName(C, FD);
   if (!gFnRe.empty() && !C.FnRe.match(name)) return;
   std::string id = fnId(C, FD);
@@ -914,6 +916,7 @@ public:
     std::string file = fileOf(C, RD->getLocation());
     if (!inRoot(file)) return true;
     if (file != C.mainFile && !C.HdrRe.match(file)) return true;
+    if (file == C.mainFile && gNoMain) return true;
     bool isInst = isa<ClassTemplateSpecializationDecl>(RD) && !cast<ClassTemplateSpecializationDecl>(RD)->isExplicitSpecialization();
     std::string name = qualName(RD);
     if (isInst && !C.InstRe.match(name)) return true;
@@ -1127,6 +1130,7 @@ int main(int argc, const char **argv) {
     else if (a == "--inst" && i + 1 < argc) gInstRe = argv[++i];
     else if (a == "--fn" && i + 1 < argc) gFnRe = argv[++i];
     else if (a == "--depth" && i + 1 < argc) gDepth = atoi(argv[++i]);
+    else if (a == "--no-main") gNoMain = true;
     else if (a == "--overlay" && i + 1 < argc) {
       std::string o = argv[++i];
       auto p = o.find('=');
